@@ -3,6 +3,7 @@
 
 mod c01;
 mod c03;
+mod c04;
 mod c05;
 mod c06;
 mod c08;
@@ -25,7 +26,7 @@ mod val;
 use common::*;
 
 fn all_families() -> Vec<Box<dyn Family>> {
-  vec![Box::new(c08::C08), Box::new(c18::C18), Box::new(c09::C09), Box::new(c12::C12), Box::new(thr_ops::C19Ops), Box::new(thr_ops::C19Subjects), Box::new(thr_ops::C11), Box::new(timed::C16), Box::new(timed::C15), Box::new(c01::C01), Box::new(c05::C05Seq), Box::new(c05::C05Thr), Box::new(c06::C06), Box::new(c17::C17), Box::new(c14::C14), Box::new(c10::C10), Box::new(c13::C13), Box::new(c13::C13Thr), Box::new(c03::C03), Box::new(c03::C03Rsg)]
+  vec![Box::new(c08::C08), Box::new(c18::C18), Box::new(c09::C09), Box::new(c12::C12), Box::new(thr_ops::C19Ops), Box::new(thr_ops::C19Subjects), Box::new(thr_ops::C11), Box::new(timed::C16), Box::new(timed::C15), Box::new(c01::C01), Box::new(c05::C05Seq), Box::new(c05::C05Thr), Box::new(c06::C06), Box::new(c17::C17), Box::new(c14::C14), Box::new(c10::C10), Box::new(c13::C13), Box::new(c13::C13Thr), Box::new(c03::C03), Box::new(c03::C03Rsg), Box::new(c04::C04Travel), Box::new(c04::C04Handlers)]
 }
 
 fn spec_for(prop: &str) -> Option<CheckSpec> {
@@ -56,6 +57,22 @@ fn spec_for(prop: &str) -> Option<CheckSpec> {
       families: vec![
         FamilySpec { fam: Box::new(c03::C03), quick_runs: 400_000, thorough_runs: 6_000_000 },
         FamilySpec { fam: Box::new(c03::C03Rsg), quick_runs: 20_000, thorough_runs: 200_000 },
+      ],
+      quick_cap_s: 60,
+      thorough_cap_s: 900,
+    }),
+    "C04" => Some(CheckSpec {
+      property: "C04",
+      level: "fault_enumeration",
+      rule: "travel family: one case = (pipeline, scripts, step order) with the error fault enumerated at EVERY position of the faulted source's script inside the case; handler family: one case = (handler, parameter, per-subscription scripts); distinct = distinct (workload hash, recorded history hash) pairs; non-trivial = at least one event recorded".to_string(),
+      assumptions: vec![
+        "travel: differential oracle - the run with the error at position k is compared with the fault-free run cut at k: same events before, then the very same payload (downcast to ErrTok), once, last".into(),
+        "the faulted source sits where no operator discards its terminal by definition (not an amb input, not a trigger input, not behind switch_on_next)".into(),
+        "retry(n): attempts are counted from 1 and a failed attempt is retried while attempt < n; 0 = unbounded (the crate's convention named in the property's anchors)".into(),
+      ],
+      families: vec![
+        FamilySpec { fam: Box::new(c04::C04Travel), quick_runs: 120_000, thorough_runs: 2_000_000 },
+        FamilySpec { fam: Box::new(c04::C04Handlers), quick_runs: 200_000, thorough_runs: 3_000_000 },
       ],
       quick_cap_s: 60,
       thorough_cap_s: 900,
